@@ -40,7 +40,7 @@ func baseProfile(name string) *Profile {
 		HotP:       0.5,
 		PFine:      0.4,
 		PJump:      0.05,
-		Crons:      []string{"* * * * * *", "*/30 * * * * *", "* * * * *", "*/5 * * * *", "0 * * * *", "@every 90s", "@hourly", "15 10 * * *"},
+		Crons:      []string{"* * * * * *", "*/30 * * * * *", "* * * * *", "*/5 * * * *", "0 * * * *", "@every 90s", "@hourly", "15 10 * * *", "0 0 31 2 *", "CRON_TZ=UTC 0 0 * * *"},
 		TimeoutRel: []int64{-1000, 0, 1, 50, 500, 1000, 2000, 5000, 5000, 60000, 10_000_000},
 		Ttls:       []int64{0, 1, 10, 1000, 5000, 100000},
 	}
@@ -188,6 +188,7 @@ func ProfileFor(prop string) *Profile {
 		p.TimeoutRel = []int64{0, 1000, 5000, 60000, 10_000_000, 10_000_000, 10_000_000}
 		p.Promises = []string{"p0", "a:b", "b:c", "a", "c"}
 		p.Collide = true
+		p.PHostileRecv = 0.3
 	case "C15":
 		p.PFront = 1
 		p.PSynth = 0.3
@@ -206,6 +207,7 @@ func ProfileFor(prop string) *Profile {
 		p.Schedules = []string{"s0", "S0", "a<b&c", "s/1"}
 		p.Resources = []string{"l0", "L0", "l 0"}
 	case "C19":
+		p.PHostileRecv = 0.15
 		p.Prologue = "tasks"
 		p.PTiny = 0.1
 		p.PLazyOnly = 0
